@@ -64,9 +64,9 @@ func Run(tier string, seed uint64, modelPath, repo string, out *res.Result) erro
 	rn := &runner{m: m, out: out, v: v, w: &worker{}, seed: seed, classes: map[string]res.Finding{}}
 	defer rn.w.stop()
 
-	nSpell, nShort, nBlocks, nVars, kwPerProp := 9000, 3000, 2500, 2500, 0
+	nSpell, nShort, nBlocks, nVars, kwPerProp := 16000, 4000, 3000, 3000, 0
 	if tier == "thorough" {
-		nSpell, nShort, nBlocks, nVars, kwPerProp = 260000, 60000, 50000, 40000, 0
+		nSpell, nShort, nBlocks, nVars, kwPerProp = 420000, 60000, 50000, 40000, 0
 	}
 	out.Rule = "P1: declarations = (harvested test literals | property x 1-4 atoms drawn from the atoms the real validator accepts for it, " +
 		"atoms = every keyword literal of the validators + lengths in all units, %, numbers, colours, strings, urls, functions) x 2 spelling variants; " +
@@ -638,6 +638,9 @@ type corpusCase struct {
 	Note  string   `json:"note"`
 	// SameAs: a document whose computed values of Props must be identical
 	SameAs string `json:"same_as,omitempty"`
+	// Block / SameAsBlock: declaration blocks PreprocessDeclarations must treat identically
+	Block       string `json:"block,omitempty"`
+	SameAsBlock string `json:"same_as_block,omitempty"`
 }
 
 // corpus: minimal inputs of past failures, run first (in the worker).
@@ -658,9 +661,17 @@ func (rn *runner) corpus() error {
 		if json.Unmarshal(b, &c) != nil {
 			continue
 		}
+		rn.out.Hit("corpus")
+		if c.Block != "" {
+			got, want := declsText(preprocessText(c.Block)), declsText(preprocessText(c.SameAsBlock))
+			rn.out.Count("corpus:"+c.Block, true)
+			if got != want {
+				rn.add("judge", "judge:corpus", c.Block, got, want+"   as "+c.SameAsBlock, c.Note, "", 0)
+			}
+			continue
+		}
 		resp, died := rn.w.ask(styleReq{HTML: c.HTML, Props: c.Props})
 		rn.out.Count("corpus:"+c.HTML, true)
-		rn.out.Hit("corpus")
 		if died {
 			rn.add("crash", "crash:var", c.HTML, "worker process died (stack overflow / fatal error)", "", c.Note, "worker-died", 0)
 		} else if resp.Panic != "" {
@@ -761,15 +772,14 @@ func (rn *runner) vars(r *rng.R, n int) error {
 		if wantSpec != nil && gs != strings.Join(wantSpec, " | ") {
 			key := ""
 			switch {
-			case specAns.Head() == "invalid" && modelAns.Head() == "ok" && len(modelAns.Xs) > 1:
-				key = "missing-reference-substituted-by-nothing"
-			case hasTag(c, "cycle-fallback"):
-				key = "cyclic-reference-ignores-fallback"
+			case specAns.Head() == "invalid" && modelAns.Head() == "ok" && len(modelAns.Xs) > 1 &&
+				(hasTag(c, "cycle") || hasTag(c, "self-cycle")):
+				key = "cyclic-reference-substituted-by-nothing"
 			case strings.Contains(specText, ",") && (hasTag(c, "fallback") || hasTag(c, "fallback-var")):
 				key = "fallback-commas-dropped"
 			}
 			rn.add("judge", "judge:var-substitution", docA, gs, strings.Join(wantSpec, " | ")+"   via "+specText,
-				"computed style differs from textual substitution of the custom properties (CSS Variables: fallback when missing, invalid at computed-value time -> inherited/initial when missing without fallback, cyclic or ill-typed)", key, sub.Seed())
+				"computed style differs from textual substitution of the custom properties (fallback when undefined; invalid at computed-value time -> inherited/initial when cyclic or ill-typed)", key, sub.Seed())
 		}
 		// the same document spelled differently
 		if sub.P(1, 3) {
